@@ -193,6 +193,41 @@ Proof. exact readonly_finder_calls_fresh_lemma. Qed.
 Print Assumptions readonly_finder_calls_fresh.
 
 (* ------------------------------------------------------------------------- *)
+(* the correspondence predicates evaluated by the harness accept only observation
+   lists on which the IMPLEMENTATION satisfied the property: every accepted step raised
+   nothing and was recorded as "equal to the fresh object's value" (for PSFPhotometry:
+   or is the configuration error that a fresh object raises too).  So a passing (K) run
+   is at least as strong as the direct fresh-object oracle on the same histories. *)
+Theorem bkg_check_sound :
+  forall thr low f11 (h : list bobs),
+    bcheck (tb_cfg thr low f11) (binit term (tb_cfg thr low f11)) h = true -> Forall bobs_ok h.
+Proof. exact bcheck_sound_lemma. Qed.
+Print Assumptions bkg_check_sound.
+
+Theorem aperture_check_sound :
+  forall le la (vs : list term) (hc h : list aobsv),
+    map aop_of hc = ctor_ops term 0 vs -> Forall (wf_op term (length vs)) (map aop_of h) ->
+    acheck {| lazy_ext := le; lazy_area := la |} (ainit term) (hc ++ h) = true -> Forall aobs_ok h.
+Proof. exact acheck_sound_lemma. Qed.
+Print Assumptions aperture_check_sound.
+
+Theorem psf_check_sound :
+  forall (c : pscfg) (g0 : option Z) (h : list psobsv),
+    pscheck c g0 (psinit Z term g0) h = true -> Forall (psobs_ok c) h.
+Proof. exact pscheck_sound_lemma. Qed.
+Print Assumptions psf_check_sound.
+
+Theorem ellipse_check_sound :
+  forall (g0 : geo) (h : list eobsv), echeck g0 g0 h = true -> Forall eobs_ok h.
+Proof. exact echeck_sound_lemma. Qed.
+Print Assumptions ellipse_check_sound.
+
+Theorem grid_check_sound :
+  forall (xg yg : list Z) (h : list gobsv), gcheck xg yg [] h = true -> Forall gobs_ok h.
+Proof. exact gcheck_sound_lemma. Qed.
+Print Assumptions grid_check_sound.
+
+(* ------------------------------------------------------------------------- *)
 (* non-vacuity / concrete instances *)
 (* the well-formedness premise of [aperture_reads_fresh] is satisfiable by a history that
    reassigns and reads *)
